@@ -12,7 +12,7 @@ RULE = ("stateless DFS over every tie-break sequence (random.choice in the greed
         "non-trivial when the graph has a clique larger than m0 or the run reached >= 1 tie-break point")
 BOUNDS = {
     "quick": "all labelled graphs without isolated vertices on 2..6 vertices x m0 in 2..n+1 x all tie-breaks; "
-             "suite fixture (14 vertices) for m0 2..5; all 853 connected atlas graphs on 7 vertices in 2 labelings x m0 3..5 (K7, K7-e at m0=3 only in thorough)",
+             "suite fixture (14 vertices) for m0 2..5; all 853 connected atlas graphs on 7 vertices in 2 labelings x m0 3..5 (K7, K7-e at m0=3 only in thorough); K8 minus every graph with <= 4 edges x m0 5..8",
     "thorough": "quick + all connected atlas graphs on 7 vertices in 3 labelings x m0 2..8 x all tie-breaks "
                 "+ all labelled graphs on 6 vertices under a 1-based shuffled relabeling",
 }
@@ -33,6 +33,11 @@ def instances(tier, seed):
                     if m0 == 3 and len(edges) >= 20:
                         continue  # K7 and K7 minus an edge at m0 = 3: 2*10^4 tie-break sequences (thorough tier)
                     yield {"kind": "edges", "edges": edges, "m0s": [m0], "labels": lab}
+    # dense graphs on 8 (thorough: 9) vertices: K_n minus every graph with <= 4 edges, size bounds near the clique number
+    for n in ((8,) if tier == "quick" else (8, 9)):
+        for edges in enumr.near_complete_graphs(n, 4):
+            for lab in enumr.relabelings(n, seed, kinds=("identity", "reversed")):
+                yield {"kind": "edges", "edges": edges, "m0s": list(range(n - 3, n + 1)), "labels": lab}
     for n in range(2, 7):
         masks = list(enumr.labelled_graph_masks(n, no_isolated=True))
         step = 96
